@@ -553,12 +553,12 @@ def thinCs {α} : List Bool → List α → List α
   | false :: ks, c :: cs => c :: thinCs ks cs
   | _, cs => cs
 
-/-- frames heard between the windows of a JOIN procedure are never deleted: they are not rejected
-frames in the sense of the property — see `joinC_rxc_frame_visible` below -/
+/-- during a JOIN procedure ANY frame heard on the RXC parameters may be deleted: a device without a
+session accepts none of them (`joinC_rxc_frames_invisible` below) -/
 def thinEvC (k1 : List Bool) (b1 : Bool) (k2 : List Bool) (b2 : Bool) : EvC → EvC
   | .uplinkC cc data fport conf fault c1 rx1 c2 rx2 =>
     .uplinkC cc data fport conf fault (thinCs k1 c1) (maskRx b1 rx1) (thinCs k2 c2) (maskRx b2 rx2)
-  | .joinC cc fault c1 rx1 c2 rx2 => .joinC cc fault c1 (maskRx b1 rx1) c2 (maskRx b2 rx2)
+  | .joinC cc fault c1 rx1 c2 rx2 => .joinC cc fault (thinCs k1 c1) (maskRx b1 rx1) (thinCs k2 c2) (maskRx b2 rx2)
   | .base e => .base (maskEv b1 b2 e)
 
 def thinEvsC : List DelC → List EvC → List EvC
@@ -889,10 +889,11 @@ theorem cycleC_thin (cc : Bool) (m : MacState) (s : Session) (hst : m.st = .join
 
 /-! a device that is joining -/
 
-theorem winC_mask_otaa (cc : Bool) (m : MacState) (o : OtaaState) (hst : m.st = .otaa o) (cs : List (RxView × Int))
+theorem winC_thin_otaa (cc : Bool) (m : MacState) (o : OtaaState) (hst : m.st = .otaa o) (cs cs' : List (RxView × Int))
     (f : Option (RxView × Int)) (mp : Nat) (eb ea : Bool) (b : Bool) (hb : b = true → heard RejJoin f) :
-    winC cc m cs (maskRx b f) mp eb ea = winC cc m cs f mp eb ea := by
+    winC cc m cs' (maskRx b f) mp eb ea = winC cc m cs f mp eb ea := by
   unfold winC
+  rw [between_notJoined_eq cc m (fun s hs => by rw [hst] at hs; cases hs) cs' cs]
   cases hbw : between cc m cs with
   | error e => rfl
   | ok r =>
@@ -901,15 +902,17 @@ theorem winC_mask_otaa (cc : Bool) (m : MacState) (o : OtaaState) (hst : m.st = 
     simp only [bind, Except.bind]
     rw [window_otaa m1 o hst, window_otaa m1 o hst, joinAcc_mask b f hb]
 
-theorem cycleC_mask_otaa (cc : Bool) (m : MacState) (o : OtaaState) (hst : m.st = .otaa o) (fault : Option FaultPos)
-    (c1 : List (RxView × Int)) (rx1 : Option (RxView × Int)) (c2 : List (RxView × Int)) (rx2 : Option (RxView × Int))
+/-- the receive procedure of a joining device: whatever is heard on the RXC parameters, and rejected
+frames in the windows, play no part -/
+theorem cycleC_thin_otaa (cc : Bool) (m : MacState) (o : OtaaState) (hst : m.st = .otaa o) (fault : Option FaultPos)
+    (c1 c1' : List (RxView × Int)) (rx1 : Option (RxView × Int)) (c2 c2' : List (RxView × Int)) (rx2 : Option (RxView × Int))
     (mp1 mp2 : Nat) (b1 b2 : Bool) (hb1 : b1 = true → heard RejJoin rx1) (hb2 : b2 = true → heard RejJoin rx2) :
-    cycleC cc m fault c1 (maskRx b1 rx1) c2 (maskRx b2 rx2) mp1 mp2 = cycleC cc m fault c1 rx1 c2 rx2 mp1 mp2 := by
+    cycleC cc m fault c1' (maskRx b1 rx1) c2' (maskRx b2 rx2) mp1 mp2 = cycleC cc m fault c1 rx1 c2 rx2 mp1 mp2 := by
   unfold cycleC
   by_cases htx : fault = some .tx
   · simp only [htx, if_true]
   · simp only [htx, if_false]
-    rw [winC_mask_otaa cc m o hst c1 rx1 mp1 _ _ b1 hb1]
+    rw [winC_thin_otaa cc m o hst c1 c1' rx1 mp1 _ _ b1 hb1]
     cases hw1 : winC cc m c1 rx1 mp1 (fault == some .before1) (fault == some .close1) with
     | error e => rfl
     | ok r =>
@@ -930,7 +933,29 @@ theorem cycleC_mask_otaa (cc : Bool) (m : MacState) (o : OtaaState) (hst : m.st 
               · have := hw.2.1; split at this <;> cases this
               · exact hw.1
           subst hma
-          rw [winC_mask_otaa cc ma o hst c2 rx2 mp2 _ _ b2 hb2]
+          rw [winC_thin_otaa cc ma o hst c2 c2' rx2 mp2 _ _ b2 hb2]
+
+/-- **while joining, what is heard on the RXC parameters changes NOTHING** (the repaired clause:
+`C07-join-aborted-by-rxc-frame`): the join procedure of a Class C device with ANY frames heard between
+TX and RX1 and between RX1 and RX2 — garbage, frames of other devices, even a JoinAccept on the wrong
+parameters — is, as a computation, the join procedure of the twin that heard none of them: same
+state, same random stream, same output, same failures.  For every state, class, fault position and
+every frame list. -/
+theorem joinC_rxc_frames_invisible {σ} (g : Rng σ) (ms : MacState × σ) (cc : Bool) (fault : Option FaultPos)
+    (c1 c2 : List (RxView × Int)) (rx1 rx2 : Option (RxView × Int)) :
+    stepC g ms (.joinC cc fault c1 rx1 c2 rx2) = stepC g ms (.joinC cc fault [] rx1 [] rx2) := by
+  simp only [stepC]
+  cases hj : macJoinOtaa g ms.1 ms.2 with
+  | error e => rfl
+  | ok r =>
+    obtain ⟨jo, m1, rs1⟩ := r
+    obtain ⟨dr, tx, region', pw, r1, r2, _, _, hm1, _, _⟩ := macJoinOtaa_ok g ms.1 ms.2 rs1 jo m1 hj
+    have hst1 : m1.st = .otaa { devNonce := (draw g ms.2).1 % 65536 } := by rw [hm1]
+    simp only [bind, Except.bind]
+    have := cycleC_thin_otaa cc m1 _ hst1 fault [] c1 rx1 [] c2 rx2 jo.tx.rx1.maxPayload.toNat jo.tx.rx2.maxPayload.toNat false false
+      (fun e => by cases e) (fun e => by cases e)
+    simp only [maskRx, Bool.false_eq_true, if_false] at this
+    rw [this]
 
 /-- **thinning one extended event by rejected frames**: same state, same random stream, same output
 up to the `NoUpdate` entries of the deleted frames -/
@@ -957,7 +982,7 @@ theorem stepC_thin {σ} (g : Rng σ) (m m' : MacState) (rs rs' : σ) (gh : Gh) (
       have hst1 : m1.st = .otaa { devNonce := (draw g rs).1 % 65536 } := by rw [hm1]
       rw [hj] at h
       simp only [bind, Except.bind] at h ⊢
-      rw [cycleC_mask_otaa cc m1 _ hst1 fault c1 rx1 c2 rx2 _ _ b1 b2 hl.1 hl.2]
+      rw [cycleC_thin_otaa cc m1 _ hst1 fault c1 _ rx1 c2 _ rx2 _ _ b1 b2 hl.1 hl.2]
       exact h
   | uplinkC cc data fport conf fault c1 rx1 c2 rx2 =>
     simp only [evOkC, Bool.and_eq_true] at hv
@@ -1153,38 +1178,41 @@ example : (runC lcg m0C demoHistoryC).toOption.map
     (fun r => decide (LegalC none [.keep, .thin [true] false [] false] ((annotC lcg m0C demoHistoryC).zip r.2))) = some false := by
   decide +kernel
 
-/-! ### the clause that FAILS on extended histories: a frame heard by a joining Class C device
+/-! ### a frame heard by a JOINING Class C device (finding `C07-join-aborted-by-rxc-frame`, repaired)
 
-`Mac::handle_rxc` answers `Err(NotJoined)` while the device is joining, and `between_windows`
-propagates it (`self.mac.handle_rxc(..)?`): ANY frame — garbage, a frame of another device — heard on
-the RXC parameters between the JoinRequest and RX1 (or between RX1 and RX2) aborts the join procedure
-with an error; the JoinAccept that arrives in RX1 is never listened for.  The twin device that did not
-hear that frame joins.  So such a frame, which the device certainly "does not accept", is NOT
-invisible: the property text is violated by this extended history (reported to the main session; the
-deletion scripts above therefore never delete frames from `c1`/`c2` of a join procedure). -/
+`Mac::handle_rxc` answers `Err(NotJoined)` while the device is joining, and `between_windows` used to
+propagate it (`self.mac.handle_rxc(..)?`): ANY frame — garbage, a frame of another device — heard on
+the RXC parameters between the JoinRequest and RX1 (or between RX1 and RX2) aborted the join procedure
+with `Err(Mac)`; RX1/RX2, where the JoinAccept arrives, were never opened, while the twin device that
+did not hear that frame joins: a frame the device certainly "does not accept" was NOT invisible.  The
+repair (repo-fixes/C07-0001-…) takes `Err(NotJoined)` as `NoUpdate`; `joinC_rxc_frames_invisible` above
+is the clause at full strength on the repaired model, and the deletion scripts may delete any frame
+from `c1`/`c2` of a join procedure. -/
 
 def goodJa : RxView := .joinAccept { micOk := true, devAddr := 9, dlSettings := 0, rxDelay := 1, cfList := none, nwkKey := 5, appKey := 6 }
 
-/-- the join procedure of a Class C device that hears garbage between TX and RX1 … -/
-def joinNoise : List EvC := [ .joinC true none [(.garbage, 0)] (some (goodJa, 0)) [] none ]
+/-- the join procedure of a Class C device that hears garbage between TX and RX1, and a frame of
+somebody else between RX1 and RX2 … -/
+def joinNoise : List EvC := [ .joinC true none [(.garbage, 0)] none [(fr 3 none, 0), (.garbage, 1)] (some (goodJa, 0)) ]
 /-- … and of its twin that does not -/
-def joinQuiet : List EvC := [ .joinC true none [] (some (goodJa, 0)) [] none ]
+def joinQuiet : List EvC := [ .joinC true none [] none [] (some (goodJa, 0)) ]
 
 def isJoined (m : MacState) : Bool := match m.st with | .joined _ => true | _ => false
 
-/-- the twin joins (`JoinSuccess`); the device that heard the garbage frame reports a radio-level
-error and stays unjoined -/
-theorem joinC_rxc_frame_visible :
+/-- both join (`JoinSuccess` in RX2) -/
+example :
     (runC lcg m0C joinQuiet).toOption.map (fun r => (r.2.map (fun o => match o.out with | .join _ resp => some resp | _ => none),
         isJoined r.1.1)) = some ([some (some .joinSuccess)], true) ∧
     (runC lcg m0C joinNoise).toOption.map (fun r => (r.2.map (fun o => match o.out with | .join _ resp => some resp | _ => none),
-        isJoined r.1.1)) = some ([some none], false) := by
+        isJoined r.1.1)) = some ([some (some .joinSuccess)], true) := by
   constructor <;> decide +kernel
 
-/-- op lines that replay it on the REAL async front-end (`lvharness eval`) and on the Lean device model
-(`lvdriver`): the quiet twin opens RX1 and RX2 and answers `Ok(NoJoinAccept)`; the device that hears one
-garbage byte on the RXC parameters answers `Err(Mac)` after the first `rx_continuous` and opens neither
-window; a Class A device (third line) is unaffected -/
+example : thinEvsC [.thin [true] false [true, true] false] joinNoise = joinQuiet := by rfl
+
+/-- op lines that replay the finding on the REAL async front-end (`lvharness eval`) and on the Lean
+device model (`lvdriver`): the quiet twin opens RX1 and RX2 and answers `Ok(NoJoinAccept)`; the device
+that hears one garbage byte on the RXC parameters must do the same (before the repair: `Err(Mac)` after
+the first `rx_continuous`, neither window opened); a Class A device (third line) never listens there -/
 def joinC_rxc_frame_ops : List String :=
   [ "C07 adev EU868 1 - 15 40 1 57 ; ajoin | O O O O O O O O O O O O ; snap",
     "C07 adev EU868 1 - 15 40 1 57 ; ajoin | O O R0/ff/g O O O O O O O O O ; snap",
@@ -1202,4 +1230,4 @@ end C07
 #print axioms C07.stepC_thin
 #print axioms C07.historyC_rejected_invisible
 #print axioms C07.asyncC_rejected_invisible
-#print axioms C07.joinC_rxc_frame_visible
+#print axioms C07.joinC_rxc_frames_invisible
